@@ -416,7 +416,7 @@ fn iter_exhaustive(ctx: &Ctx, props: Props, out: &mut ShardOut) {
                         }
                         for (write, clone_at) in [(false, 255u8), (true, (pat % (steps as u32 + 1)) as u8)] {
                             let mut h = setup.clone();
-                            h.push(Op::Iter(IterSpec { list: list as u8, fam, steps, pat, write, clone_at, fin: ((pat + idx as u32) % 6) as u8 }));
+                            h.push(Op::Iter(IterSpec { list: list as u8, fam, steps, pat, write, clone_at, fin: ((pat + idx as u32) % 9) as u8 }));
                             let r = run_history(&cfg, KeyType::Tracked, &h, &opts, &mut out.cov);
                             out.notes.bump("iter-exhaustive-cases");
                             if !r.violations.is_empty() {
@@ -792,7 +792,9 @@ pub fn engine_suite(ctx: &Ctx) -> ShardOut {
             }
         }
         let mut n = (rng.range(ctx.hist_len as u64 / 4, ctx.hist_len as u64) as usize).max(4);
-        if cfg.total() > 10 && !cfg!(miri) {
+        if cfg.total() > 60 && !cfg!(miri) {
+            n *= 40;
+        } else if cfg.total() > 10 && !cfg!(miri) {
             // medium-sized configurations need longer histories to fill up and churn
             n *= 6;
         }
